@@ -417,45 +417,56 @@ def _w6(ctx, rep):
     # fast path: value B(vec, vec; Wext), gradient 2 A^T Wext vec with vec = A x + b - q
     fc = ix.cls(LF + "standard_qtomography_based_weighted_probability_based_squared_error.StandardQTomographyBasedWeightedProbabilityBasedSquaredError")
     fv, fg = fc.methods["value"], fc.methods["gradient"]
-    for m in (fv, fg):
-        defs = single_defs(m)
-        p = unparse(defs.get("p")) if "p" in defs else ""
-        vec = unparse(defs.get("vec")) if "vec" in defs else ""
-        q = unparse(defs.get("q")) if "q" in defs else ""
-        ok = p == "self._matA @ var + self._vecB" and vec == "p - q" and q == "self._prob_dists_q_flat"
-        rep.check(ok, "W6", m, "fast model in %s" % m.name, "v = A x + b - q", "model is p=%s, vec=%s, q=%s; expected A x + b - q" % (p, vec, q), node=m.node)
-    for weighted in (True, False):
-        lab = "weighted" if weighted else "unweighted"
-        ifs = [n for n in own_nodes(fg.node) if isinstance(n, ast.If) and unparse(n.test) == "self._extend_weight_matrix is not None"]
-        ifv = [n for n in own_nodes(fv.node) if isinstance(n, ast.If) and unparse(n.test) == "self._extend_weight_matrix is not None"]
-        if len(ifs) != 1 or len(ifv) != 1:
-            rep.undecided("W6", fg, "fast gradient (%s)" % lab, "weight branch not found")
+    from .. import symsum
+    MODEL = "self._matA @ var + self._vecB - self._prob_dists_q_flat"
+    WNONE = "self._extend_weight_matrix is None"
+
+    def norm_model(e):
+        """text of e with the residual A x + b - q written canonically (so that it can be compared whatever locals were used)"""
+        return unparse(e).replace(" ", "")
+    for m, what in ((fv, "value"), (fg, "gradient")):
+        cs = symsum.cases(m)
+        if cs is None:
+            rep.undecided("W6", m, "fast %s" % what, "too many paths")
             continue
-        gb = ifs[0].body if weighted else ifs[0].orelse
-        vb = ifv[0].body if weighted else ifv[0].orelse
-        gexpr = next((s.value for s in gb if isinstance(s, ast.Assign) and unparse(s.targets[0]) == "grad"), None)
-        vexpr = next((s.value for s in vb if isinstance(s, ast.Assign) and unparse(s.targets[0]) == "val"), None)
-        defs = single_defs(fg)
-        ok_v = vexpr is not None and unparse(vexpr) == ("multiply_veca_vecb_matc(vec, vec, self._extend_weight_matrix)" if weighted else "multiply_veca_vecb(vec, vec)")
-        rep.check(ok_v, "W6", fv, "fast value (%s)" % lab, "B(v, v)", "fast value is %s" % (unparse(vexpr) if vexpr is not None else None), node=fv.node)
-        ok_g, why = False, "no gradient expression"
-        if gexpr is not None:
-            e = inline(fg, gexpr, defs={k: v for k, v in defs.items() if k in ("grad_ps",)})
-            coef = 1
-            # peel the scalar factor
-            facs = product_nodes(e)
-            first = facs[0][0]
-            if isinstance(first, ast.BinOp) and isinstance(first.op, ast.Mult) and const(first.left) is not NOCONST:
-                coef = const(first.left)
-                facs = product_nodes(first.right) if False else [(first.right, facs[0][1], facs[0][2])] + facs[1:]
-                # (2 * A.T) parses as Mult(2, A.T): re-normalise the right operand
-                inner = product_nodes(first.right)
-                facs = [(n, c != facs[0][1], t != facs[0][2]) for n, c, t in inner] + facs[1:] if False else inner + facs[1:]
-            texts = [(unparse(n), c, t) for n, c, t in facs]
-            want = [("self._matA", False, True)] + ([("self._extend_weight_matrix", False, False)] if weighted else []) + [("vec", False, False)]
-            ok_g = coef == 2 and texts == want
-            why = "fast gradient is %s * %s; the derivative of v^T W v with v = A x + b - q is 2 A^T W v" % (coef, texts)
-        rep.check(ok_g, "W6", fg, "fast gradient (%s)" % lab, "2 A^T W v", why, node=fg.node)
+        by_w = {}
+        for c in symsum.returning(cs):
+            g = {t: pol for t, pol, _ in c.guards}
+            if WNONE not in g:
+                continue
+            by_w.setdefault(not g[WNONE], []).append(c)         # True = weighted
+        for weighted in (True, False):
+            lab = "weighted" if weighted else "unweighted"
+            con = "fast %s (%s)" % (what, lab)
+            cl = by_w.get(weighted)
+            if not cl:
+                rep.undecided("W6", m, con, "no path selected by `%s`" % WNONE)
+                continue
+            texts = {norm_model(c.value) for c in cl}
+            if len(texts) != 1:
+                rep.undecided("W6", m, con, "paths return different expressions: %s" % sorted(texts))
+                continue
+            e = cl[0].value
+            V = MODEL.replace(" ", "")
+            if what == "value":
+                want = ("multiply_veca_vecb_matc(%s,%s,self._extend_weight_matrix)" % (V, V)) if weighted else ("multiply_veca_vecb(%s,%s)" % (V, V))
+                got = norm_model(e)
+                rep.check(got == want, "W6", m, con, "B(v, v) with v = A x + b - q", "fast value is %s; expected %s" % (unparse(e), want), node=m.node)
+            else:
+                facs = product_nodes(e)
+                coef = 1
+                if facs:
+                    first = facs[0][0]
+                    if isinstance(first, ast.BinOp) and isinstance(first.op, ast.Mult) and const(first.left) is not NOCONST:
+                        coef = const(first.left)
+                        facs = product_nodes(first.right) + facs[1:]
+                tx = [(unparse(n).replace(" ", ""), c, t) for n, c, t in facs]
+                want = [("self._matA", False, True)] + ([("self._extend_weight_matrix", False, False)] if weighted else []) + [("(%s)" % V, False, False)]
+                tx = [(a if not a.startswith("(") else a, c, t) for a, c, t in tx]
+                tx2 = [(a.strip("()") if a.strip("()") == V else a, c, t) for a, c, t in tx]
+                want2 = [(a.strip("()") if a.strip("()") == V else a, c, t) for a, c, t in want]
+                rep.check(coef == 2 and tx2 == want2, "W6", m, con, "2 A^T W v",
+                          "fast gradient is %s * %s; the derivative of v^T W v with v = A x + b - q is 2 A^T W v" % (coef, tx2), node=m.node)
     # relative entropy: same (q, p) order and weight factor in value / gradient / hessian
     rc = ix.cls(LF + "weighted_relative_entropy.WeightedRelativeEntropy")
     sig = {}
